@@ -341,6 +341,7 @@ def _binned_cases(tier):
     for bf in (1, 2, 0.5):
         out.append((P, S[:3], 30, bf))
     out.append((P[:2], S, 30, 1))            # more secondaries than primaries: the datasets are swapped internally
+    out.append(([0.0, 40.0], [35.0, 45.0, 50.0, 100.0], 30, 1))     # ... with candidate pairs (i, j), i != j, to be swapped back
     if tier == "thorough":
         out += [(P, S, 30, 0.5), (P, S, 60, 0.25), ([0.0, 10.0, 20.0, 200.0], [15.0, 190.0], 12, 1)]
     return out
